@@ -64,12 +64,15 @@ pub fn proxy_handler(
         simplified_uri.insert(0, '/');
     }
 
-    // Return error 403 if the address was blacklisted
-    if state
-        .config
-        .blacklist
-        .list
-        .contains(&request.address.origin_addr)
+    // Return error 403 if the address was blacklisted, whether it is the address the request originates from
+    //   or one of the addresses it passed through (the last of which is the peer actually connected to us)
+    let blacklist = &state.config.blacklist.list;
+    if blacklist.contains(&request.address.origin_addr)
+        || request
+            .address
+            .proxies
+            .iter()
+            .any(|proxy| blacklist.contains(proxy))
     {
         state.logger.warn(format!(
             "{}: Blacklisted IP attempted to request {}",
